@@ -100,3 +100,40 @@ def run(ck, prog):
     from sa.builders import check_builders
     check_builders(ck, prog, r"^svm::(svc::SVC|svr::SVR)Parameters$")
     ck.floor("E2-builder", 8)
+
+
+# ------------------------------------------------------------------ per-row outputs: no state carried between row iterations
+_run_pre_isolation = run
+ISOLATION_FNS = [('SVC::decision_function', '^svm::svc::SVC::<T, M, K>::decision_function$'), ('SVR::predict', '^svm::svr::SVR::<T, M, K>::predict$')]
+
+
+def run(ck, prog):
+    _run_pre_isolation(ck, prog)
+    from sa import isolation
+    isolation.run_rule(ck, prog, ISOLATION_FNS, xarg=2)
+
+
+# ------------------------------------------------------------------ RBF kernel: translation-invariant form
+_run_pre_difference = run
+
+
+def run(ck, prog):
+    _run_pre_difference(ck, prog)
+    from sa import difference
+    difference.run_rule(ck, prog, [("RBFKernel::apply", r"^<svm::RBFKernel<T> as svm::Kernel<T, V>>::apply$", 2, 3)])
+    ck.floor("E2f-difference", 1)
+
+
+EXPLANATION += (" Row-loop isolation (E2-isolation): in the `for i in 0..rows(x)` loop of SVC::decision_function and SVR::predict every piece of state an "
+                "iteration reads is completely re-defined earlier in the same iteration (fresh allocation, whole assignment, fill/clear/"
+                "copy_row_as_vec, or a reset loop over the full length), except the loop iterator and the result container written "
+                "at row i only: a buffer hoisted out of the loop and only partly reset makes the output for a row depend on the rows "
+                "processed before it.")
+TECHNIQUE += "; loop-carried-state (iteration isolation) rule on the row loops"
+
+
+EXPLANATION += (" Difference form (E2f-difference): the RBF kernel depend on their two vector arguments only through x - y - no "
+                "arithmetic node of the result (dot, norm, sum, product, power) is computed from one of the vectors alone. The "
+                "algebraically equal expansion |x|^2 + |y|^2 - 2 x.y cancels catastrophically for data with a large common offset "
+                "(distinct points at distance 0, K = 1 or K > 1, negative squared distances).")
+TECHNIQUE += "; difference-form provenance rule"
